@@ -131,8 +131,75 @@ SUBSET = ["EVENT.tags=[[e,9]]", "REQ.#e=[9]", "REQ,sid,9", "EVENT,12", "txt_deep
           "REQ.tags=9", "AUTH,12", "frame=12", "EVENT.content=9", "many_filters", "EVENT.sig=7", "REQ.limit=5", "deleg_4_bad", "txt_surrogate", "EVENT.tags=[9]"]
 
 
+# a slow reader: the send of connection 1 blocks while it asks for / is pushed many events, then it disconnects; nothing of it may
+# stay behind and connection 2 must go on being served
+MANY = [make_event("A", 1, 600 + i, [["t", "bulk"]], "bulk %d" % i) for i in range(40)]
+
+
+def slow_scenario(backend, variant):
+    def setup(w):
+        f = w.connect("setup", "9.9.9.9")
+        w.run(10.0)
+        if variant == "big_stored_result":
+            for ev in MANY:
+                w.send("setup", ["EVENT", ev], 10.0)
+        f.drop()
+        w.run(10.0)
+        del w.conns["setup"]
+
+    if variant == "big_stored_result":
+        script = [("c1", ["REQ", "big", {"#t": ["bulk"]}]), ("c2", ["REQ", "w", {"kinds": [1], "limit": 2}]), ("c1", DROP), ("c2", ["EVENT", OTHER_EV]),
+                  ("c2", ["REQ", "w2", {"kinds": [1], "limit": 1}])]
+    else:  # many live pushes to a reader that stopped reading
+        script = [("c1", ["REQ", "live", {"#t": ["bulk"]}])] + [("c2", ["EVENT", ev]) for ev in MANY] + [("c2", ["REQ", "w2", {"kinds": [1], "limit": 1}]), ("c1", DROP)]
+    return Scenario("slow|%s|%s" % (variant, backend), backend, [("c1", "1.1.1.1"), ("c2", "2.2.2.2")], script,
+                    storage_options={"stats_interval": 1e15}, setup=setup, stall=("c1",), horizon=400.0, allow_timer_deviation=False)
+
+
+def run_slow(case):
+    _, backend, variant, _, tier = case
+    scn = slow_scenario(backend, variant)
+    viol = []
+    cid = "%s|slow|%s" % (backend, variant)
+    n = [0]
+
+    def on_exec(x):
+        import asyncio
+
+        n[0] += 1
+        w = x.world
+        sig = "%s|sched=%s" % (variant, explorer.rle(x.choices) if any(x.choices) else "default")
+        c2 = w.conns["c2"]
+        fr2 = frames_of(c2)
+        oks = [m for m in fr2 if m[0] == "OK"]
+        want_ok = len(MANY) if variant == "many_live_pushes" else 1
+        if len(oks) != want_ok or not all(m[2] is True for m in oks):
+            viol.append({"case": cid, "clause": "other-connections-undisturbed", "sig": sig,
+                         "detail": "connection 2 got %d OK frames for %d EVENTs while connection 1 is a slow reader | %s" % (len(oks), want_ok, sig)})
+        if not any(m[0] == "EOSE" and m[1] == "w2" for m in fr2):
+            viol.append({"case": cid, "clause": "other-connections-undisturbed", "sig": sig, "detail": "connection 2's REQ w2 got no EOSE | %s" % sig})
+        for c in w.conns.values():
+            if not c.dropped:
+                c.drop()
+        w.run(1e6)
+        pending = [t for t in asyncio.all_tasks(w.loop) if not t.done() and "Periodic" not in repr(t.get_coro())]
+        if len(w.storage.clients) or pending:
+            viol.append({"case": cid, "clause": "everything-dropped-at-disconnect", "sig": sig,
+                         "detail": "after both connections ended: %d registry entries, pending tasks %r | %s" % (
+                             len(w.storage.clients), [repr(t.get_coro())[:70] for t in pending][:3], sig)})
+        if w.loop.handler_errors:
+            viol.append({"case": cid, "clause": "no-stray-exceptions", "sig": sig, "detail": "%r | %s" % (w.loop.handler_errors[:2], sig)})
+
+    explorer.explore(scn, 0 if tier == "quick" else 1, on_exec)
+    return {"id": cid, "viol": viol, "outcome": "slow", "evals": n[0], "states": n[0], "transitions": n[0], "nontrivial": True, "desc": describe(case),
+            "extra": {"executions_slow_reader": n[0]}, "sample": {"mode": "slow", "backend": backend, "variant": variant, "executions": n[0]}}
+
+
 def cases(tier):
     out = []
+    for backend in ("sql", "kv"):
+        for variant in ("big_stored_result", "many_live_pushes"):
+            out.append(("slow", backend, variant, (), tier))
     names = list(HF())
     blk = 12
     for backend in ("sql", "kv"):
@@ -246,6 +313,8 @@ def baseline(backend, emb, auth):
 
 
 def run_case(case):
+    if case[0] == "slow":
+        return run_slow(case)
     mode, backend, emb, names, tier = case
     viol = []
     n = 0
